@@ -408,7 +408,46 @@ fn read_dir_files(dir: &str) -> BTreeMap<String, Vec<u8>> {
     out
 }
 
+/// store files that @include each other: a cycle, a self-include, a diamond, a missing file - loaded from a directory that is
+/// not the current one, so names as written and names as resolved differ
+fn include_graphs(rng: &mut Rng, out: &mut Vec<Input>) {
+    let doc = |id: &str, includes: &[&str], array: bool| -> String {
+        let inc = if includes.is_empty() {
+            String::new()
+        } else if includes.len() == 1 && !array {
+            format!("\"@include\": \"{}\",", includes[0])
+        } else {
+            format!("\"@include\": [{}],", includes.iter().map(|i| format!("\"{}\"", i)).collect::<Vec<_>>().join(", "))
+        };
+        format!(
+            "{{\n  \"@type\": \"AnnotationStore\",\n  \"@id\": \"{id}\",\n  {inc}\n  \"resources\": [ {{ \"@type\": \"TextResource\", \"@id\": \"r{id}\", \"text\": \"text of {id} é日\" }} ],\n  \"annotationsets\": [],\n  \"annotations\": [ {{ \"@type\": \"Annotation\", \"@id\": \"a{id}\", \"target\": {{ \"@type\": \"TextSelector\", \"resource\": \"r{id}\", \"offset\": {{ \"@type\": \"Offset\", \"begin\": {{ \"@type\": \"BeginAlignedCursor\", \"value\": 0 }}, \"end\": {{ \"@type\": \"BeginAlignedCursor\", \"value\": 4 }} }} }}, \"data\": [] }} ]\n}}\n"
+        )
+    };
+    let a = "a.store.stam.json";
+    let b = "b.store.stam.json";
+    let c = "c.store.stam.json";
+    let array = rng.chance(1, 2);
+    let shapes: Vec<(&str, Vec<(&str, String)>)> = vec![
+        ("include-cycle-2", vec![(a, doc("a", &[b], array)), (b, doc("b", &[a], array))]),
+        ("include-self", vec![(a, doc("a", &[a], array))]),
+        ("include-cycle-3", vec![(a, doc("a", &[b], array)), (b, doc("b", &[c], array)), (c, doc("c", &[a], array))]),
+        ("include-diamond", vec![(a, doc("a", &[b, c], true)), (b, doc("b", &[c], array)), (c, doc("c", &[], false))]),
+        ("include-twice", vec![(a, doc("a", &[b, b], true)), (b, doc("b", &[], false))]),
+        ("include-missing", vec![(a, doc("a", &["nowhere.store.stam.json"], array))]),
+        ("include-dot-slash", vec![(a, doc("a", &["./b.store.stam.json"], array)), (b, doc("b", &["./a.store.stam.json"], array))]),
+    ];
+    let (name, files) = rng.pick(&shapes).clone();
+    let mut f = BTreeMap::new();
+    for (n, t) in files {
+        f.insert(n.to_string(), t);
+    }
+    out.push(Input { kind: "json-store-file".into(), mutation: name.to_string(), files: f, main: a.to_string() });
+}
+
 fn gen_inputs(p: &Params, rng: &mut Rng, k: u64, out: &mut Vec<Input>) {
+    if k % 4 == 0 {
+        include_graphs(rng, out);
+    }
     let mut cfg = GenCfg::default();
     cfg.hostile_ids = false;
     cfg.allow_semicolon = false;
